@@ -6,6 +6,7 @@ CONSTANTS
   FIXWRAP = TRUE
   FIXHOPS = TRUE
   FIXOHEXP = TRUE
+  FIXOHSEC = TRUE
   XorAcc <- SymXor
   MINLEN = 2
   MAXLEN = 3
